@@ -38,3 +38,11 @@ Definition doc_code (T : bytes) : bytes := p_open ++ text_code T ++ p_close.
    neither 85 nor A0 *)
 Definition no_byte_space_lead (T : bytes) : bool :=
   match snd (span ascii_ws T) with [] => true | b :: _ => negb (Byte.eqb b x85 || Byte.eqb b xa0) end.
+
+(* ---- several lines (spec/SrcText.v: doc_spec_lines).  whitespaceExpression takes the line break after `<p>` and the leading run
+   of L1; textParser reads a line up to the line break (tagTemplOrNewLine) and then takes parse.Whitespace - the line break and
+   the leading run of the next line, bytes 85 / A0 included - as the text's trailing space: NewTrailingSpace sees the line break
+   first and answers SpaceVertical, which the generator writes as one space when another node follows (writeWhitespaceTrailer)
+   and not at all behind the last child of the element. *)
+Definition lines_code (Ls : list bytes) : bytes := join_sp (map text_code Ls).
+Definition doc_code_lines (Ls : list bytes) : bytes := p_open ++ lines_code Ls ++ p_close.
